@@ -337,3 +337,320 @@ pub fn drive_constants<C: BlsSignatureImpl>(log: &mut Log) {
     put("POPPROOF", <C as BlsSignaturePop>::POP_DST);
     put("ENC", <C as BlsElGamal>::ENC_DST);
 }
+
+// ------------------------------------------------------------------ protocol walk (spec/Trace_Proto.tla)
+struct Deal<C: BlsSignatureImpl> {
+    owner: usize,
+    t: usize,
+    shares: Vec<(String, SecretKeyShare<C>)>,
+    pkshares: Vec<Option<(String, PublicKeyShare<C>)>>,
+}
+
+fn msg_of(n: usize, tag: u8) -> Vec<u8> {
+    (0..n).map(|i| (i as u8).wrapping_mul(31).wrapping_add(tag)).collect()
+}
+
+pub fn drive_proto<C>(log: &mut Log, seed: u64, events: usize)
+where
+    C: BlsSignatureImpl + PartialEq + Eq + std::fmt::Debug + Clone,
+{
+    use blsful::vsss_rs::Share;
+    let mut rng = ChaCha8Rng::seed_from_u64(seed ^ 0x9a07_0c01);
+    let target = log.events.len() + events;
+    let mut atomno = 0u64;
+    while log.events.len() < target {
+        log.reset();
+        let chunk_start = log.events.len();
+        let atom_len = [1usize, 5, 16, 33][rng.gen_range(0..4)];
+        let mut p: Pools<C> = Pools { sks: vec![], pks: vec![], sigs: vec![], pops: vec![], atoms: vec![] };
+        for i in 0..4 {
+            let mut b = vec![0u8; atom_len];
+            rng.fill(&mut b[..]);
+            b[0] = (b[0] & 0xF0) | i as u8;
+            p.atoms.push((format!("m{}", i), b));
+        }
+        let nk = rng.gen_range(2..4);
+        for j in 0..nk {
+            let (sk, ev): (SecretKey<C>, Value) = if rng.gen_bool(0.4) {
+                let k = [1i64, 2, 3, -1, -2][rng.gen_range(0..5)];
+                (SecretKey::<C>(sc::<C>(k)), json!({"ev": "Sk", "kind": "int", "k": k, "atom": ""}))
+            } else {
+                (SecretKey::<C>::from_hash(format!("proto-{seed}-{j}-{}", log.events.len())), json!({"ev": "Sk", "kind": "hash", "k": 0, "atom": format!("h{}", j)}))
+            };
+            let id = log.id("sk", &sk.to_be_bytes());
+            let mut ev = ev;
+            ev["out"] = json!(id);
+            log.ev(ev);
+            let pk = sk.public_key();
+            let pid = log.id("pk", &Vec::<u8>::from(&pk));
+            log.ev(json!({"ev": "Pk", "sk": id, "out": pid}));
+            p.sks.push((id, sk));
+            p.pks.push((pid, pk));
+        }
+        let nk = p.sks.len();
+        let mut deals: Vec<Deal<C>> = vec![];
+        let mut sigshares: Vec<(String, SignatureShare<C>, usize, usize)> = vec![]; // id, share, deal, participant
+        let mut tlcts: Vec<(String, TimeCryptCiphertext<C>, Vec<u8>)> = vec![];
+        let mut sccts: Vec<(String, SignCryptCiphertext<C>, Vec<u8>, usize)> = vec![];
+        let mut dshares: Vec<(String, SignDecryptionShare<C>, usize)> = vec![]; // id, share, sc ct index
+        let mut egcts: Vec<(String, ElGamalCiphertext<C>)> = vec![];
+        while log.events.len() < target && log.events.len() - chunk_start < 260 {
+            let roll = rng.gen_range(0..100);
+            if roll < 8 || p.sigs.is_empty() {
+                let i = rng.gen_range(0..nk);
+                let scheme = ["Basic", "Aug", "Pop"][rng.gen_range(0..3)];
+                let (mr, mb) = rand_msg(&mut rng, &p);
+                let s = p.sks[i].1.sign(scheme_of(scheme), &mb).unwrap();
+                let id = log.id("sig", &sig_bytes(&s));
+                log.ev(json!({"ev": "Sign", "sk": p.sks[i].0, "scheme": scheme, "msg": mr, "res": "Ok", "out": id}));
+                p.sigs.push((id, s, Some((i, mr, mb))));
+            } else if roll < 16 {
+                // deal: parameters in and out of range
+                let i = rng.gen_range(0..nk);
+                let (t, n) = [(2usize, 2usize), (2, 3), (3, 3), (2, 4), (3, 5), (4, 6), (1, 3), (3, 2), (2, 5)][rng.gen_range(0..9)];
+                let r = p.sks[i].1.split(t, n);
+                atomno += 1;
+                let dname = format!("d{}", atomno);
+                match r {
+                    Ok(sh) => {
+                        let ids: Vec<String> = sh.iter().map(|s| log.id("skshare", &Vec::<u8>::from(s))).collect();
+                        log.ev(json!({"ev": "Split", "sk": p.sks[i].0, "t": t, "n": n, "deal": dname, "res": "Ok", "outs": ids}));
+                        let l = sh.len();
+                        deals.push(Deal { owner: i, t, shares: ids.into_iter().zip(sh.into_iter()).collect(), pkshares: vec![None; l] });
+                    }
+                    Err(_) => log.ev(json!({"ev": "Split", "sk": p.sks[i].0, "t": t, "n": n, "deal": dname, "res": "Err", "outs": []})),
+                }
+            } else if deals.is_empty() {
+                continue;
+            } else if roll < 24 {
+                let d = rng.gen_range(0..deals.len());
+                let j = rng.gen_range(0..deals[d].shares.len());
+                let pks = deals[d].shares[j].1.public_key().unwrap();
+                let id = log.id("pkshare", &Vec::<u8>::from(&pks));
+                log.ev(json!({"ev": "PkShare", "share": deals[d].shares[j].0, "out": id}));
+                deals[d].pkshares[j] = Some((id, pks));
+            } else if roll < 36 {
+                let d = rng.gen_range(0..deals.len());
+                let j = rng.gen_range(0..deals[d].shares.len());
+                let scheme = ["Basic", "Pop", "Pop", "Aug"][rng.gen_range(0..4)];
+                let (mr, mb) = rand_msg(&mut rng, &p);
+                match deals[d].shares[j].1.sign(scheme_of(scheme), &mb) {
+                    Ok(s) => {
+                        let id = log.id("sigshare", &Vec::<u8>::from(&s));
+                        log.ev(json!({"ev": "PartialSign", "share": deals[d].shares[j].0, "scheme": scheme, "msg": mr, "res": "Ok", "out": id}));
+                        sigshares.push((id, s, d, j));
+                        // sometimes verify it against a key share of the same deal
+                        if let Some(Some((pid, pks))) = deals[d].pkshares.get(rng.gen_range(0..deals[d].pkshares.len())) {
+                            let (mr2, mb2) = if rng.gen_bool(0.7) { (mr.clone(), mb.clone()) } else { rand_msg(&mut rng, &p) };
+                            let r = pks.verify(&s, &mb2);
+                            let sid = sigshares.last().unwrap().0.clone();
+                            log.ev(json!({"ev": "PartialVerify", "pkshare": pid, "sigshare": sid, "msg": mr2, "res": res_str(&r)}));
+                        }
+                    }
+                    Err(_) => log.ev(json!({"ev": "PartialSign", "share": deals[d].shares[j].0, "scheme": scheme, "msg": mr, "res": "Err", "out": ""})),
+                }
+            } else if roll < 46 {
+                // all participants of a deal sign one message; a random subset / order is recombined
+                let d = rng.gen_range(0..deals.len());
+                let scheme = ["Basic", "Pop"][rng.gen_range(0..2)];
+                let (mr, mb) = rand_msg(&mut rng, &p);
+                let mut parts = vec![];
+                for j in 0..deals[d].shares.len() {
+                    let s = deals[d].shares[j].1.sign(scheme_of(scheme), &mb).unwrap();
+                    let id = log.id("sigshare", &Vec::<u8>::from(&s));
+                    log.ev(json!({"ev": "PartialSign", "share": deals[d].shares[j].0, "scheme": scheme, "msg": mr, "res": "Ok", "out": id}));
+                    parts.push((id, s));
+                }
+                let n = parts.len();
+                let cnt = [deals[d].t.saturating_sub(1), deals[d].t, (deals[d].t + 1).min(n), n, 1, 0][rng.gen_range(0..6)];
+                let mut idx: Vec<usize> = (0..n).collect();
+                for i in (1..n).rev() {
+                    idx.swap(i, rng.gen_range(0..i + 1));
+                }
+                idx.truncate(cnt);
+                if rng.gen_range(0..8) == 0 && !idx.is_empty() {
+                    idx.push(idx[0]); // duplicate
+                }
+                let chosen: Vec<SignatureShare<C>> = idx.iter().map(|i| parts[*i].1).collect();
+                let cids: Vec<&String> = idx.iter().map(|i| &parts[*i].0).collect();
+                match Signature::<C>::from_shares(&chosen) {
+                    Ok(s) => {
+                        let id = log.id("sig", &sig_bytes(&s));
+                        log.ev(json!({"ev": "CombineSig", "shares": cids, "res": "Ok", "out": id}));
+                        p.sigs.push((id, s, None));
+                    }
+                    Err(_) => log.ev(json!({"ev": "CombineSig", "shares": cids, "res": "Err", "out": ""})),
+                }
+                // the whole-key signature over the same message, for the Bind rule to compare with
+                let w = p.sks[deals[d].owner].1.sign(scheme_of(scheme), &mb).unwrap();
+                let wid = log.id("sig", &sig_bytes(&w));
+                log.ev(json!({"ev": "Sign", "sk": p.sks[deals[d].owner].0, "scheme": scheme, "msg": mr, "res": "Ok", "out": wid}));
+                p.sigs.push((wid, w, Some((deals[d].owner, mr, mb))));
+            } else if roll < 52 {
+                // recombine key / public key from a random subset
+                let d = rng.gen_range(0..deals.len());
+                let n = deals[d].shares.len();
+                let cnt = [deals[d].t.saturating_sub(1), deals[d].t, n, 1][rng.gen_range(0..4)].max(0);
+                let mut idx: Vec<usize> = (0..n).collect();
+                for i in (1..n).rev() {
+                    idx.swap(i, rng.gen_range(0..i + 1));
+                }
+                idx.truncate(cnt);
+                if rng.gen_bool(0.5) {
+                    let chosen: Vec<SecretKeyShare<C>> = idx.iter().map(|i| deals[d].shares[*i].1.clone()).collect();
+                    let cids: Vec<&String> = idx.iter().map(|i| &deals[d].shares[*i].0).collect();
+                    match SecretKey::<C>::combine(&chosen) {
+                        Ok(k) => {
+                            let id = log.id("sk", &k.to_be_bytes());
+                            log.ev(json!({"ev": "CombineKey", "shares": cids, "res": "Ok", "out": id}));
+                        }
+                        Err(_) => log.ev(json!({"ev": "CombineKey", "shares": cids, "res": "Err", "out": ""})),
+                    }
+                } else {
+                    let mut chosen = vec![];
+                    let mut cids = vec![];
+                    for i in idx {
+                        if deals[d].pkshares[i].is_none() {
+                            let pks = deals[d].shares[i].1.public_key().unwrap();
+                            let id = log.id("pkshare", &Vec::<u8>::from(&pks));
+                            log.ev(json!({"ev": "PkShare", "share": deals[d].shares[i].0, "out": id}));
+                            deals[d].pkshares[i] = Some((id, pks));
+                        }
+                        let (id, s) = deals[d].pkshares[i].clone().unwrap();
+                        chosen.push(s);
+                        cids.push(id);
+                    }
+                    match PublicKey::<C>::from_shares(&chosen) {
+                        Ok(k) => {
+                            let id = log.id("pk", &Vec::<u8>::from(&k));
+                            log.ev(json!({"ev": "CombinePk", "shares": cids, "res": "Ok", "out": id}));
+                        }
+                        Err(_) => log.ev(json!({"ev": "CombinePk", "shares": cids, "res": "Err", "out": ""})),
+                    }
+                }
+            } else if roll < 62 {
+                // time-lock: seal for a key and identifier, then try to open with some signature
+                let i = rng.gen_range(0..p.pks.len().min(nk));
+                let scheme = ["Basic", "Aug", "Pop"][rng.gen_range(0..3)];
+                let (idr, idb) = rand_msg(&mut rng, &p);
+                let n = [0usize, 1, 5, 31, 32, 100][rng.gen_range(0..6)];
+                let m = msg_of(n, 7);
+                atomno += 1;
+                match p.pks[i].1.encrypt_time_lock(scheme_of(scheme), &m, &idb) {
+                    Ok(ct) => {
+                        let id = log.id("tlct", &Vec::<u8>::from(&ct));
+                        log.ev(json!({"ev": "TLSeal", "pk": p.pks[i].0, "scheme": scheme, "id": idr, "n": n, "atom": format!("tr{}", atomno), "res": "Ok", "len": ct.w.len(), "out": id}));
+                        // the signature that opens it
+                        let s = p.sks[i].1.sign(scheme_of(scheme), &idb).unwrap();
+                        let sid = log.id("sig", &sig_bytes(&s));
+                        log.ev(json!({"ev": "Sign", "sk": p.sks[i].0, "scheme": scheme, "msg": idr, "res": "Ok", "out": sid}));
+                        p.sigs.push((sid, s, Some((i, idr, idb))));
+                        tlcts.push((id, ct, m));
+                    }
+                    Err(_) => log.ev(json!({"ev": "TLSeal", "pk": p.pks[i].0, "scheme": scheme, "id": idr, "n": n, "atom": "", "res": "Err", "len": 0, "out": ""})),
+                }
+            } else if roll < 72 && !tlcts.is_empty() {
+                let c = rng.gen_range(0..tlcts.len());
+                // mostly recent signatures (the opener is among them), sometimes any
+                let si = if rng.gen_bool(0.6) { p.sigs.len() - 1 - rng.gen_range(0..p.sigs.len().min(4)) } else { rng.gen_range(0..p.sigs.len()) };
+                let r: Option<Vec<u8>> = tlcts[c].1.decrypt(&p.sigs[si].1).into();
+                let res = match &r {
+                    None => "None",
+                    Some(m) if *m == tlcts[c].2 => "Some",
+                    Some(_) => "SomeOther",
+                };
+                log.ev(json!({"ev": "TLDecrypt", "ct": tlcts[c].0, "sig": p.sigs[si].0, "res": res}));
+            } else if roll < 80 {
+                // signcryption
+                let i = rng.gen_range(0..nk);
+                let scheme = ["Basic", "Aug", "Pop"][rng.gen_range(0..3)];
+                let n = [0usize, 1, 5, 31, 32, 100][rng.gen_range(0..6)];
+                let m = msg_of(n, 9);
+                atomno += 1;
+                let ct = p.pks[i].1.sign_crypt(scheme_of(scheme), &m);
+                let id = log.id("scct", &Vec::<u8>::from(&ct));
+                log.ev(json!({"ev": "SCSeal", "pk": p.pks[i].0, "scheme": scheme, "n": n, "atom": format!("sr{}", atomno), "len": ct.v.len(), "out": id}));
+                log.ev(json!({"ev": "SCValid", "ct": id, "res": bool::from(ct.is_valid())}));
+                let k = if rng.gen_bool(0.6) { i } else { rng.gen_range(0..nk) };
+                let r: Option<Vec<u8>> = ct.decrypt(&p.sks[k].1).into();
+                let res = match &r {
+                    None => "None",
+                    Some(x) if *x == m => "Some",
+                    Some(_) => "SomeOther",
+                };
+                log.ev(json!({"ev": "SCDecrypt", "ct": id, "sk": p.sks[k].0, "res": res}));
+                sccts.push((id, ct, m, i));
+            } else if roll < 90 && !sccts.is_empty() {
+                // threshold decryption of a signcryption ciphertext by a deal of the recipient key (or of another key)
+                let c = rng.gen_range(0..sccts.len());
+                let cands: Vec<usize> = (0..deals.len()).filter(|d| deals[*d].owner == sccts[c].3).collect();
+                let d = if !cands.is_empty() && rng.gen_bool(0.8) { cands[rng.gen_range(0..cands.len())] } else { rng.gen_range(0..deals.len()) };
+                let n = deals[d].shares.len();
+                let mut made = vec![];
+                for j in 0..n {
+                    let ds = sccts[c].1.create_decryption_share(&deals[d].shares[j].1).unwrap();
+                    let id = log.id("dshare", &Vec::<u8>::from(&ds));
+                    log.ev(json!({"ev": "SCDecShare", "ct": sccts[c].0, "share": deals[d].shares[j].0, "out": id}));
+                    made.push((id.clone(), ds.clone()));
+                    dshares.push((id, ds, c));
+                }
+                // verify one share against some key share of the deal
+                let j = rng.gen_range(0..n);
+                let kx = if rng.gen_bool(0.6) { j } else { rng.gen_range(0..n) };
+                if deals[d].pkshares[kx].is_none() {
+                    let pks = deals[d].shares[kx].1.public_key().unwrap();
+                    let id = log.id("pkshare", &Vec::<u8>::from(&pks));
+                    log.ev(json!({"ev": "PkShare", "share": deals[d].shares[kx].0, "out": id}));
+                    deals[d].pkshares[kx] = Some((id, pks));
+                }
+                let (pid, pks) = deals[d].pkshares[kx].clone().unwrap();
+                let target_ct = if rng.gen_bool(0.8) { c } else { rng.gen_range(0..sccts.len()) };
+                let r = made[j].1.verify(&pks, &sccts[target_ct].1);
+                log.ev(json!({"ev": "SCShareVerify", "dshare": made[j].0, "pkshare": pid, "ct": sccts[target_ct].0, "res": res_str(&r)}));
+                // decrypt with a random subset
+                let cnt = [deals[d].t.saturating_sub(1), deals[d].t, n, 1][rng.gen_range(0..4)];
+                let mut idx: Vec<usize> = (0..n).collect();
+                for i in (1..n).rev() {
+                    idx.swap(i, rng.gen_range(0..i + 1));
+                }
+                idx.truncate(cnt);
+                let chosen: Vec<SignDecryptionShare<C>> = idx.iter().map(|i| made[*i].1.clone()).collect();
+                let cids: Vec<&String> = idx.iter().map(|i| &made[*i].0).collect();
+                let r: Option<Vec<u8>> = sccts[c].1.decrypt_with_shares(&chosen).into();
+                let res = match &r {
+                    None => "None",
+                    Some(x) if *x == sccts[c].2 => "Some",
+                    Some(_) => "SomeOther",
+                };
+                log.ev(json!({"ev": "SCDecryptShares", "ct": sccts[c].0, "shares": cids, "res": res}));
+            } else {
+                // ElGamal: encrypt small scalars, add, decrypt, compare with m*Hm
+                let i = rng.gen_range(0..nk);
+                let hm = <C as BlsElGamal>::message_generator();
+                if egcts.is_empty() || rng.gen_bool(0.5) {
+                    let m = [1i64, 2, 3, -1][rng.gen_range(0..4)];
+                    atomno += 1;
+                    let ct = p.pks[i].1.encrypt_key_el_gamal(&SecretKey::<C>(sc::<C>(m))).unwrap();
+                    let id = log.id("egct", &Vec::<u8>::from(&ct));
+                    log.ev(json!({"ev": "EGEncrypt", "pk": p.pks[i].0, "m": m, "atom": format!("eb{}", atomno), "out": id}));
+                    egcts.push((id, ct));
+                } else if egcts.len() >= 2 && rng.gen_bool(0.5) {
+                    let (a, b) = (rng.gen_range(0..egcts.len()), rng.gen_range(0..egcts.len()));
+                    let s = egcts[a].1 + egcts[b].1;
+                    let id = log.id("egct", &Vec::<u8>::from(&s));
+                    log.ev(json!({"ev": "EGAdd", "a": egcts[a].0, "b": egcts[b].0, "out": id}));
+                    egcts.push((id, s));
+                } else {
+                    let c = rng.gen_range(0..egcts.len());
+                    let d = egcts[c].1.decrypt(&p.sks[i].1);
+                    let id = log.id("kpt", d.to_bytes().as_ref());
+                    log.ev(json!({"ev": "EGDecrypt", "ct": egcts[c].0, "sk": p.sks[i].0, "out": id}));
+                    let m = rng.gen_range(-3i64..7);
+                    let pid = log.id("kpt", (hm * sc::<C>(m)).to_bytes().as_ref());
+                    log.ev(json!({"ev": "EGPlain", "m": m, "out": pid}));
+                }
+            }
+        }
+        let _ = (&dshares, &sigshares);
+    }
+}
